@@ -348,6 +348,7 @@ type PathNode interface {
 	chain(PathNode) PathNode
 	target() bool
 	single() bool
+	recursive() bool
 }
 
 type BasePathNode struct {
@@ -367,6 +368,10 @@ func (n *BasePathNode) single() bool {
 	return true
 }
 
+func (n *BasePathNode) recursive() bool {
+	return false
+}
+
 type PathSelectorNode struct {
 	*BasePathNode
 	selector string
@@ -380,7 +385,8 @@ func newPathSelectorNode(selector string) *PathSelectorNode {
 }
 
 func (n *PathSelectorNode) Index(idx int) (PathNode, bool, error) {
-	return nil, false, &errors.PathError{}
+	// a name selects nothing from an array
+	return nil, false, nil
 }
 
 func (n *PathSelectorNode) Field(fieldName string) (PathNode, bool, error) {
@@ -463,7 +469,8 @@ func (n *PathIndexNode) Index(idx int) (PathNode, bool, error) {
 }
 
 func (n *PathIndexNode) Field(fieldName string) (PathNode, bool, error) {
-	return nil, false, &errors.PathError{}
+	// an index selects nothing from an object
+	return nil, false, nil
 }
 
 func (n *PathIndexNode) Get(src, dst reflect.Value) error {
@@ -506,7 +513,7 @@ func (n *PathIndexAllNode) Index(idx int) (PathNode, bool, error) {
 }
 
 func (n *PathIndexAllNode) Field(fieldName string) (PathNode, bool, error) {
-	return nil, false, &errors.PathError{}
+	return nil, false, nil
 }
 
 func (n *PathIndexAllNode) Get(src, dst reflect.Value) error {
@@ -550,6 +557,7 @@ func (n *PathIndexAllNode) String() string {
 type PathRecursiveNode struct {
 	*BasePathNode
 	selector string
+	chained  bool // a further selector follows `..name`
 }
 
 func newPathRecursiveNode(selector string) *PathRecursiveNode {
@@ -562,7 +570,30 @@ func newPathRecursiveNode(selector string) *PathRecursiveNode {
 	}
 }
 
+func (n *PathRecursiveNode) chain(node PathNode) PathNode {
+	n.child = node
+	n.chained = true
+	return node
+}
+
+func (n *PathRecursiveNode) recursive() bool {
+	return true
+}
+
+// Field is the step Extract takes: a member with the name is selected itself when `..name` ends the
+// path, and handed to the following selector otherwise.
 func (n *PathRecursiveNode) Field(fieldName string) (PathNode, bool, error) {
+	if n.selector == fieldName {
+		if !n.chained {
+			return nil, true, nil
+		}
+		return n.child, true, nil
+	}
+	return nil, false, nil
+}
+
+// match is the step Get takes (its child for an unchained node is the selector node of the same name).
+func (n *PathRecursiveNode) match(fieldName string) (PathNode, bool, error) {
 	if n.selector == fieldName {
 		return n.child, true, nil
 	}
@@ -598,7 +629,7 @@ func (n *PathRecursiveNode) Get(src, dst reflect.Value) error {
 			if !ok {
 				return fmt.Errorf("invalid map key type %T", src.Type().Key())
 			}
-			child, found, err := n.Field(key)
+			child, found, err := n.match(key)
 			if err != nil {
 				return err
 			}
@@ -622,7 +653,7 @@ func (n *PathRecursiveNode) Get(src, dst reflect.Value) error {
 		typ := src.Type()
 		for i := 0; i < typ.Len(); i++ {
 			tag := runtime.StructTagFromField(typ.Field(i))
-			child, found, err := n.Field(tag.Key)
+			child, found, err := n.match(tag.Key)
 			if err != nil {
 				return err
 			}
@@ -663,7 +694,7 @@ func (n *PathRecursiveNode) Get(src, dst reflect.Value) error {
 
 func (n *PathRecursiveNode) String() string {
 	s := fmt.Sprintf("..%s", n.selector)
-	if n.child != nil {
+	if n.chained {
 		s += n.child.String()
 	}
 	return s
